@@ -21,6 +21,7 @@ static int isws(int c) { return c == ' '; }
 static int lc(int c) { return (c >= 'A' && c <= 'Z') ? c + 32 : c; }
 /* reference: returns 1 and *val if the string is a valid size, 0 if it must be rejected, 2 if the documentation does not
  * settle it (double sign, ".5" without integer part, in-range exponent notation, empty string): not judged. */
+static const uint64_t P10[20] = {1ULL, 10ULL, 100ULL, 1000ULL, 10000ULL, 100000ULL, 1000000ULL, 10000000ULL, 100000000ULL, 1000000000ULL, 10000000000ULL, 100000000000ULL, 1000000000000ULL, 10000000000000ULL, 100000000000000ULL, 1000000000000000ULL, 10000000000000000ULL, 100000000000000000ULL, 1000000000000000000ULL, 10000000000000000000ULL};
 static int ref_size(const unsigned char* s, int n, int64_t* val) {
   unsigned char b[H_LEN + 1]; int m = 0;
   for (int i = 0; i < n; i++) if (!isws(s[i])) b[m++] = (unsigned char)lc(s[i]);
@@ -46,9 +47,10 @@ static int ref_size(const unsigned char* s, int n, int64_t* val) {
     int sh = 0;
     if (p < m) { int u = b[p]; if (u == 'k') sh = 10; else if (u == 'm') sh = 20; else if (u == 'g') sh = 30; else if (u == 't') sh = 40; else return 0; p++; }
     unsigned __int128 num = (unsigned __int128)ip * fden + fp;   /* value = num / fden * 10^e10 * 2^sh */
-    if (e10 > 0) { if (num != 0 && e10 > 19) overflow = 1; else for (int k = 0; k < e10 && k < 19; k++) num *= 10; }
-    else if (e10 < 0) { for (int k = 0; k < -e10 && k < 30; k++) { if (fden > (UINT64_MAX / 10)) { num = 0; break; } fden *= 10; } }
-    unsigned __int128 term = (num << sh) / fden;
+    unsigned __int128 den = fden;
+    if (e10 > 0) { if (e10 > 19) { if (num != 0) overflow = 1; } else num *= P10[e10]; }
+    else if (e10 < 0) { if (-e10 > 19) num = 0; else den *= P10[-e10]; }
+    unsigned __int128 term = (num << sh) / den;
     if (term > (unsigned __int128)INT64_MAX) overflow = 1;
     total += term;
     if (total > (unsigned __int128)INT64_MAX) overflow = 1;
@@ -85,6 +87,7 @@ int main(void) {
       int neg = 0, q = p; if (q < n && (s[q] == '+' || s[q] == '-')) { neg = s[q] == '-'; q++; }
       int64_t v = 0; int nd = 0; while (q < n && s[q] >= '0' && s[q] <= '9') { v = v * 10 + (s[q] - '0'); nd++; q++; }
       if (nd > 0 && q == n) { want = (neg ? -v : v) * (1LL << 20); r = 1; (void)lead_ws; }
+      else if (q > p && q < n && isws(s[q])) r = 2;   /* blank right after the sign: not settled */
       else r = ref_size(s, n, &want);
     }
   }
